@@ -152,7 +152,9 @@ func runProp(prop string) int {
 		return 2
 	}
 	rr := &runResult{deps: map[string]bool{}, ctxOf: map[*Obl]*Ctx{}}
-	timeout := 10
+	// quick: generous relative to the slowest obligation on the unchanged tree (< 4 s), so that a
+	// loaded machine does not turn a proof into a timeout
+	timeout := 30
 	if *flagTier == "thorough" {
 		timeout = 120
 	}
